@@ -316,7 +316,7 @@ func seeds(thorough bool) []seed {
 	hand := neighbours.Hand()
 	maxTok, fullCorpus, delCorpus := 34, 120, 400
 	if thorough {
-		maxTok, fullCorpus, delCorpus = 1 << 30, 700, 4500
+		maxTok, fullCorpus, delCorpus = 1<<30, 700, 4500
 	}
 	for _, p := range hand {
 		if p.NTok <= maxTok {
